@@ -45,6 +45,15 @@ def run(chk):
     chk.guard('siblings', 'agreement', lambda: siblings(chk, runs))
     chk.guard('defaults', 'map_to / identity_map', lambda: defaults(chk, lab))
     chk.guard('delegation', 'OffsetPageTable', lambda: delegation(chk, lab))
+    # clean-up calls are part of the histories: the structural rules of C10 (only empty tables are unlinked and freed, emptiness is
+    # judged over the whole table, nothing else is written) are what keeps every translation unchanged
+    from . import c10
+
+    def cleanup_rules():
+        for impl in ('mapped', 'recursive'):
+            c10.helper(chk, impl)
+            c10.entry_points(chk, impl)
+    chk.guard('clean-up', 'clean_up / clean_up_addr_range', cleanup_rules)
 
 
 def lbl(key):
